@@ -124,8 +124,8 @@ def run(ctx):
     p = vlib.run([binp, "-mode", "hostile", "-scenarios", plan, "-trace", tp, "-rand", str(nrand), "-seed", str(ctx.seed),
                   "-workers", str(workers), "-chunkings", str(nchk), "-inject", str(ninj)], timeout=3000)
     st = json.loads(p.stdout.strip().splitlines()[-1])
-    log("[C15] driver: %d cases (%d from TLC, %d random), %d events, %d process aborts attributed, %d children replaced after a large allocation, %d restarts in %.1fs"
-        % (st["cases"], st["tlc_cases"], st["cases"] - st["tlc_cases"], st["events"], st["crashes"], st["recycles"], st.get("restarts", 0), time.time() - t0 - g.wall))
+    log("[C15] driver: %d cases (%d from TLC, %d cooperating length fields, %d random), %d events, %d process aborts attributed, %d children replaced after a large allocation, %d restarts in %.1fs"
+        % (st["cases"], st["tlc_cases"], st.get("combo_cases", 0), st["cases"] - st["tlc_cases"] - st.get("combo_cases", 0), st["events"], st["crashes"], st["recycles"], st.get("restarts", 0), time.time() - t0 - g.wall))
     ev = vlib.read_ndjson(tp)
     # split at case boundaries and validate the parts in parallel
     starts = [i for i, e in enumerate(ev) if e["op"] == "case"]
@@ -198,7 +198,8 @@ def run(ctx):
         raise vlib.Infra("no accepted case available for the binding self-test")
     rc = V.finish()
     samples = [{k: e[k] for k in e if k != "hex"} for e in ev[:3]]
-    cov = {"evaluations": runs, "cases": len(starts), "tlc_cases": st["tlc_cases"], "random_cases": st["cases"] - st["tlc_cases"],
+    cov = {"evaluations": runs, "cases": len(starts), "tlc_cases": st["tlc_cases"], "cooperating_length_field_cases": st.get("combo_cases", 0),
+           "random_cases": st["cases"] - st["tlc_cases"] - st.get("combo_cases", 0),
            "distinct_nontrivial": len(noticed), "rejected_cases": nbad, "process_aborts_attributed": st["crashes"],
            "generator_states": g.distinct, "trace_states": tstates, "chunkings_enumerated": len(chks),
            "selftest_corruptions_rejected": nself,
